@@ -162,7 +162,7 @@ def native_classes_for(key):
 def run(rep, tier):
     import z3
     rep.engines["z3"] = z3.get_version_string()
-    n_frames = 2 if tier == "quick" else 3
+    n_frames = 3 if tier == "quick" else 6
     prog = C19sym.load_program()
     for f, what in ((C19sym.S3_RS, "FileSystem::put_object, upload_part, complete_multipart_upload (rsx, symbolic fault schedule)"),
                     (C19sym.FS_RS, "FileSystem::prepare_file_write, FileWriter::done, impl Drop for FileWriter, tmp_file_counter"),
